@@ -136,6 +136,33 @@ pub fn diff_input(prop: &str, seed: u64, k: usize, tier: Tier, corpus: &Corpus) 
                 };
                 tg::numeric_in_context(&lit, &mut r).0
             }
+            18 => {
+                // text sections a scanner may skip in bulk (data lines, comments, strings, macro
+                // text) with multi-byte characters at every distance from the line ends
+                let open = r.pick(&["data a; input x $; datalines;\n", "cards;\n", "datalines4;\n", "/* ", "x = '", "%let t = ", "%put ", "title \"", "%m(", "* "]);
+                let close = match open {
+                    "data a; input x $; datalines;\n" | "cards;\n" => "\n;\nrun;",
+                    "datalines4;\n" => "\n;;;;\nrun;",
+                    "/* " => " */ y = 1;",
+                    "x = '" => "'; y = 2;",
+                    "title \"" => "\"; y = 3;",
+                    "%m(" => "); y = 4;",
+                    _ => "; y = 5;",
+                };
+                let mut s = String::from(open);
+                for _ in 0..r.range(1, 6) {
+                    for _ in 0..r.range(0, 40) {
+                        s.push((b'a' + r.below(26) as u8) as char);
+                    }
+                    s.push_str(r.pick(&["é", "日", "😀", "ж", "ß", "\u{a0}", "", "", "é日", "😀é"]));
+                    for _ in 0..r.below(8) {
+                        s.push((b'0' + r.below(10) as u8) as char);
+                    }
+                    s.push_str(r.pick(&["\n", "\n", "\r\n", " ", "é\n", "日\n"]));
+                }
+                s.push_str(close);
+                s
+            }
             15..=17 => soup::macro_soup(&mut r, 12),
             _ => gen::general(&mut r, corpus, tier).0,
         },
@@ -345,6 +372,25 @@ pub fn outcome_and_state(s: &str, st: Option<&mut Stats>) -> Vec<u8> {
 }
 
 pub fn c19_history(ctx: &Ctx, st: &mut Stats) {
+    // "regardless of the thread it runs on": a call whose native stack need follows the input
+    // returns on a thread with a large stack and kills the process on one with a small stack.
+    // The harness threads have 64 MiB; the hooks record how deep the call actually went.
+    for fi in (ctx.shard..crate::gen::FAMILIES.len()).step_by(ctx.nshards) {
+        for n in [600usize, 3000] {
+            let s = crate::gen::family(fi, n);
+            if s.len() > 200_000 {
+                continue;
+            }
+            let ex = exec(&s);
+            st.count("thread_stack_probes", 1);
+            if ex.stack_used > crate::props::STACK_LIMIT {
+                st.violation(
+                    &Finding::new("C19.thread-stack", "", format!("the call used {} bytes of native stack (family {} n={n}): whether it returns depends on the stack size of the calling thread", ex.stack_used, crate::gen::FAMILIES[fi].0)),
+                    &[&s],
+                );
+            }
+        }
+    }
     let mut r = ctx.rng(5);
     let n = ctx.draws(30_000, 600_000);
     let mut recent: Vec<String> = Vec::new();
@@ -384,6 +430,34 @@ pub fn c19_history(ctx: &Ctx, st: &mut Stats) {
             match fresh {
                 Ok(f) if f == base => {}
                 _ => st.violation(&Finding::new("C19.thread", "", "result differs on a fresh thread".into()), &[&s]),
+            }
+        }
+        // the same text at every address alignment (mod 16) and at the very end of an allocation:
+        // the source is a value, where it happens to live in memory is not part of it
+        if i % 2 == 0 && s.len() < 4000 {
+            let mut holder = String::with_capacity(s.len() + 32);
+            for off in 0..16usize {
+                holder.clear();
+                for _ in 0..off {
+                    holder.push(' ');
+                }
+                holder.push_str(&s);
+                let addr = holder.as_ptr() as usize + off;
+                let got = outcome_and_state(&holder[off..], None);
+                st.count("alignment_comparisons", 1);
+                st.count(&format!("alignment_mod8_{}", addr % 8), 1);
+                if got != base {
+                    st.violation(
+                        &Finding::new("C19.alignment", "", format!("the result depends on the address of the source text (offset {off} into its buffer, address mod 8 = {})", addr % 8)),
+                        &[&s],
+                    );
+                    break;
+                }
+            }
+            // exact-size boxed copy: nothing readable behind the last byte
+            let boxed: Box<str> = s.clone().into_boxed_str();
+            if outcome_and_state(&boxed, None) != base {
+                st.violation(&Finding::new("C19.alignment", "exact-size", "the result differs for an exact-size copy of the source".into()), &[&s]);
             }
         }
         // one String buffer reused for consecutive, related sources (same address, same offsets):
